@@ -148,7 +148,7 @@ def prop_case(case):
     fails, sourced = check_transmissions(case, out)
     classes = [sim]
     nt = sourced >= 3
-    if simrun.KIND[sim] == 'SIS' or (sim == 'Gillespie_simple_contagion' and case.get('spec') in (0, 2)):
+    if simrun.KIND[sim] == 'SIS' or (sim == 'Gillespie_simple_contagion' and case.get('spec') in (0, 2, 6)):
         nodes = [oracles.tolabel(u) for u in case['gc']['nodes']]
         twice = any(list(out.node_history(u)[1]).count('I') >= 2 for u in nodes)
         if twice:
